@@ -71,7 +71,7 @@ def baToBytesAux : Nat → Bits → Bytes
 
 def baToBytes (a : Bits) : Bytes := baToBytesAux a.length a
 
-/-! ### ALG: BitStore (bitstore.py:41-90, 199-227, 276) -/
+/-! ### ALG: BitStore (bitstore.py:41-90, 203-240, 282) -/
 
 /-- `_bitarray`, `modified_length`, `immutable`. -/
 structure Store where
@@ -83,10 +83,10 @@ structure Store where
 /-- An in-memory store (`BitStore(bitarray)`). -/
 def Store.mem (b : Bits) : Store := ⟨b, none, false⟩
 
-/-- `BitStore.frombytes` (bitstore.py:52). -/
+/-- `BitStore.frombytes` (bitstore.py:51). -/
 def Store.frombytes (data : Bytes) : Store := ⟨bytesToBits data, none, false⟩
 
-/-- `BitStore.frombuffer(buffer, length)` (bitstore.py:61): a view on the mapped buffer; a negative or too large
+/-- `BitStore.frombuffer(buffer, length)` (bitstore.py:60): a view on the mapped buffer; a negative or too large
     length is a CreationError; a length shorter than the buffer is read into memory (`_bitarray[:length]`);
     in every case the store ends with `modified_length = None` ("the bitarray now holds exactly the bits
     that are wanted"). -/
@@ -99,22 +99,22 @@ def Store.frombuffer (data : Bytes) (length : Option Int) : Except Err Store :=
     else if n > buf.length then .error .value
     else .ok ⟨if n < buf.length then pySlice buf none (some n) else buf, none, true⟩
 
-/-- `BitStore.__len__` (bitstore.py:276). -/
+/-- `BitStore.__len__` (bitstore.py:282). -/
 def Store.len (s : Store) : Nat :=
   match s.modLen with
   | some n => n
   | none => s.buf.length
 
-/-- `BitStore.tobytes` (bitstore.py:79): honours `modified_length`. -/
+/-- `BitStore.tobytes` (bitstore.py:83): honours `modified_length`. -/
 def Store.tobytes (s : Store) : Bytes :=
   match s.modLen with
   | some n => baToBytes (pySlice s.buf none (some (n : Int)))
   | none => baToBytes s.buf
 
-/-- `BitStore._copy` (bitstore.py:199): `BitStore(self._bitarray)` — a fresh, mutable, unlimited store. -/
+/-- `BitStore._copy` (bitstore.py:203): `BitStore(self._bitarray)` — a fresh, mutable, unlimited store. -/
 def Store.copy_ (s : Store) : Store := ⟨s.buf, none, false⟩
 
-/-- `BitStore.getslice_msb0(start, stop)` (bitstore.py:222): bounds are first clamped to `modified_length`. -/
+/-- `BitStore.getslice_msb0(start, stop)` (bitstore.py:226): bounds are first clamped to `modified_length`. -/
 def Store.getslice (s : Store) (start stop : Option Int) : Store :=
   match s.modLen with
   | some n =>
@@ -122,7 +122,7 @@ def Store.getslice (s : Store) (start stop : Option Int) : Store :=
     ⟨pySlice s.buf (some t.1) (some t.2.1), none, false⟩
   | none => ⟨pySlice s.buf start stop, none, false⟩
 
-/-- `BitStore.getslice_lsb0(start, stop)` (bitstore.py:232) through `offset_slice_indices_lsb0` (bitstore.py:21)
+/-- `BitStore.getslice_lsb0(start, stop)` (bitstore.py:233) through `offset_slice_indices_lsb0` (bitstore.py:21)
     for a step-less slice: `start, stop = slice.indices(len(self))`, then
     `_bitarray[len - stop : len - start]` — the same positions counted from the other end. -/
 def Store.getsliceLsb0 (s : Store) (start stop : Option Int) : Store :=
@@ -138,13 +138,22 @@ def Store.bin (s : Store) : Bits := (s.getslice none none).buf
 
 /-! ### ALG: constructors from byte sources (bits.py) -/
 
-/-- `Bits._setbytes_with_truncation(data, length, offset)` (bits.py:617). -/
+/-- `length is not None and length < 0`. -/
+def negLen : Option Int → Bool
+  | some l => decide (l < 0)
+  | none => false
+
+/-- `Bits._setbytes_with_truncation(data, length, offset)` (bits.py:640): negative offset/length and an offset
+    beyond the data are CreationErrors; the window is cut with `getslice_msb0`. -/
 def setBytes (data : Bytes) (length offset : Option Int) : Except Err Store :=
   match offset, length with
   | none, none => .ok (Store.frombytes data)                       -- _setbytes
   | _, _ =>
     let offset := offset.getD 0
     let nbits : Int := (data.length : Int) * 8
+    if offset < 0 then .error .value else
+    if negLen length then .error .value else
+    if offset > nbits then .error .value else
     match length with
     | none =>
       let length := nbits - offset                                  -- "use to the end of the data"
@@ -153,14 +162,17 @@ def setBytes (data : Bytes) (length offset : Option Int) : Except Err Store :=
       if length + offset > nbits then .error .value
       else .ok ((Store.frombytes data).getslice (some offset) (some (offset + length)))
 
-/-- The `io.BytesIO` branch of `Bits._setauto(s, length, offset)` (bits.py:523-541; the final cut is
-    `getslice_msb0`); `_setauto_no_length_or_offset` (bits.py:505) when both are None. -/
+/-- The `io.BytesIO` branch of `Bits._setauto(s, length, offset)` (bits.py:534-552; same three checks, the final
+    cut is `getslice_msb0`); `_setauto_no_length_or_offset` (bits.py:505) when both are None. -/
 def setBytesIO (data : Bytes) (length offset : Option Int) : Except Err Store :=
   match offset, length with
   | none, none => .ok (Store.frombytes data)
   | _, _ =>
     let offset := offset.getD 0
     let size : Int := data.length                                   -- s.seek(0, 2)
+    if offset < 0 then .error .value else
+    if negLen length then .error .value else
+    if offset > size * 8 then .error .value else
     let length := length.getD (size * 8 - offset)
     let byteoffset := offset / 8                                    -- divmod(offset, 8): floor / non-negative rest
     let offset := offset % 8
@@ -170,23 +182,24 @@ def setBytesIO (data : Bytes) (length offset : Option Int) : Except Err Store :=
       .ok ((Store.frombytes (pySlice data (some byteoffset) (some (byteoffset + bytelength)))).getslice
             (some offset) (some (offset + length)))
 
-/-- `Bits._setfile(filename, length, offset)` (bits.py:552) on a file holding `data` (an empty file is mapped as
-    the empty buffer `b''`); offset windows are cut with `getslice_msb0` whatever `options.lsb0` says. -/
+/-- `Bits._setfile(filename, length, offset)` (bits.py:560) on a file holding `data` (an empty file is mapped as
+    the empty buffer `b''`); a negative offset and an offset beyond the file are CreationErrors; offset windows
+    are cut with `getslice_msb0` whatever `options.lsb0` says. -/
 def setFile (data : Bytes) (length offset : Option Int) : Except Err Store :=
   let offset := offset.getD 0
+  if offset < 0 then .error .value else
   if offset = 0 then Store.frombuffer data length
   else
     -- "If offset is given then always read into memory."
     let temp : Store := ⟨bytesToBits data, none, true⟩             -- BitStore.frombuffer(m)
+    if offset > temp.len then .error .value else
     match length with
-    | none =>
-      if offset > temp.len then .error .value
-      else .ok (temp.getslice (some offset) none)
+    | none => .ok (temp.getslice (some offset) none)
     | some length =>
       let r := temp.getslice (some offset) (some (offset + length))
       if (r.len : Int) ≠ length then .error .value else .ok r
 
-/-- `BitArray.__init__` / `BitStream.__init__` (bitarray_.py:115, bitstream.py:569): a mutable object never keeps
+/-- `BitArray.__init__` / `BitStream.__init__` (bitarray_.py:115, bitstream.py:574): a mutable object never keeps
     an immutable store, it takes `_copy()` of it. -/
 def finish (cls : Cls) (s : Store) : Store :=
   if cls.isMutable && s.immutable then s.copy_ else s
@@ -203,11 +216,11 @@ def construct (cls : Cls) (k : Src) (data : Bytes) (length offset : Option Int) 
 
 /-! ### ALG: serialisation (bits.py) -/
 
-/-- `Bits._getbytes` (bits.py:632): the `bytes` property refuses lengths that are not whole bytes. -/
+/-- `Bits._getbytes` (bits.py:661): the `bytes` property refuses lengths that are not whole bytes. -/
 def bytesProp (s : Store) : Except Err Bytes :=
   if s.len % 8 ≠ 0 then .error .value else .ok s.tobytes
 
-/-- The loop of `Bits.cut(bits)` with `start = end = count = None` (bits.py:1416-1426): `start_` advances by `bits`;
+/-- The loop of `Bits.cut(bits)` with `start = end = count = None` (bits.py:1439-1449): `start_` advances by `bits`;
     an empty chunk ends the iteration, a short chunk is yielded and ends it.  `self._slice` is
     `self._bitstore.getslice`, i.e. it follows `options.lsb0`. -/
 def cutLoop (lsb0 : Bool) (s : Store) (bits end_ : Nat) : Nat → Nat → List Store
@@ -222,14 +235,14 @@ def cutLoop (lsb0 : Bool) (s : Store) (bits end_ : Nat) : Nat → Nat → List S
 def cut (lsb0 : Bool) (s : Store) (bits : Nat) : Except Err (List Store) :=
   if bits = 0 then .error .value else .ok (cutLoop lsb0 s bits s.len (s.len + 1) 0)
 
-/-- `Bits.tofile(f)` (bits.py:1518) with chunk size `chunk`: `for chunk in self.cut(chunk_size): f.write(chunk.tobytes())`. -/
+/-- `Bits.tofile(f)` (bits.py:1541) with chunk size `chunk`: `for chunk in self.cut(chunk_size): f.write(chunk.tobytes())`. -/
 def tofile (lsb0 : Bool) (chunk : Nat) (s : Store) : Except Err Bytes :=
   (cut lsb0 s chunk).map fun cs => cs.flatMap Store.tobytes
 
 /-- `tofile` as shipped: the chunk size extracted from the working tree on this run. -/
 def tofileDefault (lsb0 : Bool) (s : Store) : Except Err Bytes := tofile lsb0 Gen.tofileChunk s
 
-/-! ### ALG: Array (array_.py:353-379) — `data` is an in-memory BitArray, `isz` the item size in bits -/
+/-! ### ALG: Array (array_.py:366-392) — `data` is an in-memory BitArray, `isz` the item size in bits -/
 
 def arrayTobytes (data : Bits) : Bytes := (Store.mem data).tobytes
 def arrayTofile (lsb0 : Bool) (chunk : Nat) (data : Bits) : Except Err Bytes := tofile lsb0 chunk (Store.mem data)
@@ -240,18 +253,18 @@ inductive FKind where
   | handle | bytesio
   deriving Repr, DecidableEq
 
-/-- `new_data = Bits(f)` in `Array.fromfile` (array_.py:374). -/
+/-- `new_data = Bits(f)` in `Array.fromfile` (array_.py:387). -/
 def fromfileSource (file : Bytes) : FKind → Except Err Store
   | .handle => setFile file none none
   | .bytesio => .ok (Store.frombytes file)
 
-/-- `items_to_append = max_items if n is None else min(n, max_items)` (array_.py:376). -/
+/-- `items_to_append = max_items if n is None else min(n, max_items)` (array_.py:389). -/
 def itemsToAppend (n : Option Int) (maxItems : Int) : Int :=
   match n with
   | none => maxItems
   | some n => min n maxItems
 
-/-- `Array.fromfile(f, n)` (array_.py:369) for an item size with `length = bitlength = isz`:
+/-- `Array.fromfile(f, n)` (array_.py:382) for an item of `bitlength = isz` bits:
     ValueError when trailing bits are present; otherwise the first `min(n, max_items)` whole items are appended,
     and EOFError is raised afterwards when fewer than `n` were available. -/
 def arrayFromfile (data : Bits) (isz : Nat) (file : Bytes) (fk : FKind) (n : Option Int) : Except Err Bits :=
